@@ -145,9 +145,10 @@ class LabelParser:
             frontier = nxt
         return out
 
-    def group(self, i):
-        """a product, possibly parenthesised"""
-        out = list(self.product(i))
+    def group(self, i, denominator=False):
+        """a product, possibly parenthesised.  As a denominator only a single factor may stand bare: the documented grammar
+        parenthesises a multi-term denominator, and an unparenthesised `a / b * c` reads (a / b) * c like any arithmetic text"""
+        out = list(self.factor(i)) if denominator else list(self.product(i))
         if self.t.startswith("(", i):
             for j, d, m in self.product(i + 1):
                 if self.t.startswith(")", j):
@@ -162,12 +163,12 @@ class LabelParser:
         out = []
         heads = self.group(i)
         if self.t.startswith("1 / ", i):
-            for k, d2, m2 in self.group(i + 4):
+            for k, d2, m2 in self.group(i + 4, denominator=True):
                 out.append((k,) + comb({}, {}, d2, m2, -1))
         for j, d, m in heads:
             out.append((j, d, m))
             if self.t.startswith(" / ", j):
-                for k, d2, m2 in self.group(j + 3):
+                for k, d2, m2 in self.group(j + 3, denominator=True):
                     out.append((k,) + comb(d, m, d2, m2, -1))
         self.memo[key] = out
         return out
@@ -236,6 +237,9 @@ def run(chk, which="C18"):
         sid = 1
         trees = []
         guard = 0
+        # every one of the 32 prefixes appears in every run (two per translation unit, round robin), on a plain library unit
+        for pn in (model.PREFIXES[(2 * ti) % 32], model.PREFIXES[(2 * ti + 1) % 32]):
+            trees.append(("prefix", pn[0], ("leaf", rnd.choice([n for n in names if n not in ("Rankines",)]))))
         while len(trees) < per_tu and guard < per_tu * 40:
             guard += 1
             r = rnd.random()
